@@ -19,6 +19,7 @@ from collections.abc import Callable
 from guppylang.std.option import Option
 _T = guppy.type_var("T", copyable=False, droppable=False)
 _TC = guppy.type_var("T", copyable=True, droppable=False)
+_TD = guppy.type_var("T", copyable=False, droppable=True)
 _n = guppy.nat_var("n")
 
 @guppy.struct
@@ -47,6 +48,10 @@ class GC(Generic[_TC]):
     x: _TC
 
 @guppy.struct
+class GD(Generic[_TD]):
+    x: _TD
+
+@guppy.struct
 class GF(Generic[_T]):
     f: Callable[[_T], _T]
 '''
@@ -61,7 +66,7 @@ def gstruct_defs() -> dict:
         from guppylang_internals.engine import ENGINE
 
         mod = gp.load(GSTRUCT_SRC, name="_talg_gstructs")
-        _gstructs = {n: ENGINE.get_checked(getattr(mod, n).id) for n in ("G1", "GQ", "GA", "GN", "GP", "GC", "GF")}
+        _gstructs = {n: ENGINE.get_checked(getattr(mod, n).id) for n in ("G1", "GQ", "GA", "GN", "GP", "GC", "GD", "GF")}
     return _gstructs
 
 
